@@ -58,20 +58,6 @@ Definition show_add (r : add_result) : bytes :=
   match r with RNone => bs "NONE" | RSome t => esc t | RErr => bs "ERR" | RPanic => bs "PANIC" end.
 Definition show_spec (o : option text) : bytes := match o with None => bs "NONE" | Some t => esc t end.
 
-(* the frame lists seen at the chunk boundaries, up to and including the first one with a fingerprint *)
-Fixpoint boundaries (pre : bool) (frs : list (bool * frame)) (received : N) (chunks : list bytes)
-  : list (list frame) :=
-  match chunks with
-  | [] => []
-  | c :: r =>
-      let received := received + blen c in
-      let vis := visible_at pre frs received in
-      match fp vis with
-      | Some _ => [vis]
-      | None => vis :: boundaries pre frs received r
-      end
-  end.
-
 Definition run_line (l : bytes) : bytes :=
   match fields_lin l with
   | k :: args =>
